@@ -438,3 +438,149 @@ Definition spec_interpolate_offset (k : nat) (w_inv n_inv offset_inv : F) (v : l
   shift_by_series O (fft_rec k w_inv v) n_inv offset_inv.
 
 End Spec.
+
+(* ================================================================ CHECKED variant: every slice access explicit
+   `None` = panic.  Every `values[i]`, `twiddles[i]`, `swap(i, j)`, the division `values.len() / stride` and (when
+   `dbg` = debug profile) the debug_asserts of fft_in_place / permute_index are guards: an operation that reads or
+   writes the indices i, j is `None` unless both are in range (the slice is never observed after a panic, so the
+   order of the accesses inside one butterfly does not matter).  Proofs/FFTNoPanic.v: under the asserts of the
+   entry points no guard fails (C09_fft_in_place_no_panic) and the checked entry points EQUAL the entry points
+   above on ALL inputs, which therefore have exactly the stated panic domain. *)
+Section Checked.
+Context {F : Type} (O : FOps F).
+Variable dbg : bool.                       (* debug profile: debug_assert! is active *)
+
+Definition obind {A B} (o : option A) (f : A -> option B) : option B :=
+  match o with Some a => f a | None => None end.
+
+(* for x in l { s = body(s, x)? } *)
+Fixpoint fold_c {A B} (f : A -> B -> option A) (l : list B) (a : A) : option A :=
+  match l with
+  | [] => Some a
+  | b :: t => match f a b with Some a' => fold_c f t a' | None => None end
+  end.
+
+Definition butterfly_c (v : list F) (offset stride : nat) : option (list F) :=
+  if (offset <? length v) && (offset + stride <? length v) then Some (butterfly O v offset stride) else None.
+
+Definition butterfly_twiddle_c (v : list F) (twiddle : F) (offset stride : nat) : option (list F) :=
+  if (offset <? length v) && (offset + stride <? length v) then Some (butterfly_twiddle O v twiddle offset stride)
+  else None.
+
+Definition swap_c (v : list F) (i j : nat) : option (list F) :=
+  if (i <? length v) && (j <? length v) then Some (swap O v i j) else None.
+
+(* permute_index with its debug_asserts *)
+Definition permute_index_c (size index : nat) : option nat :=
+  if dbg && negb ((index <? size) && is_pow2 size) then None else Some (permute_index size index).
+
+Definition permute_c (v : list F) : option (list F) :=
+  let n := length v in
+  fold_c (fun v i => match permute_index_c n i with
+                     | None => None
+                     | Some j => if i <? j then swap_c v i j else Some v
+                     end) (seq 0 n) v.
+
+Fixpoint fft_in_place_c (fuel : nat) (values twiddles : list F) (count stride offset : nat) : option (list F) :=
+  if stride =? 0 then None                                   (* values.len() / stride *)
+  else
+    let size := length values / stride in
+    if dbg && negb (is_pow2 size && (offset <? stride) && (length values mod size =? 0)) then None
+    else
+      let values1 :=
+        if 2 <? size then
+          match fuel with
+          | 0 => None
+          | S fuel' =>
+            if (stride =? count) && (count <? MAX_LOOP) then
+              fft_in_place_c fuel' values twiddles (2 * count) (2 * stride) offset
+            else
+              obind (fft_in_place_c fuel' values twiddles count (2 * stride) offset)
+                    (fun v => fft_in_place_c fuel' v twiddles count (2 * stride) (offset + stride))
+          end
+        else Some values in
+      obind values1 (fun v1 =>
+      obind (fold_c (fun v o => butterfly_c v o stride) (seq offset count) v1) (fun v2 =>
+      fold_c
+        (fun v i =>
+           fold_c (fun v j => match nth_error twiddles i with          (* twiddles[i] *)
+                              | Some t => butterfly_twiddle_c v t j stride
+                              | None => None
+                              end)
+                  (seq (offset + i * (2 * stride)) count) v)
+        (seq 1 ((size + 1) / 2 - 1)) v2)).
+
+Definition fft_in_place_top_c (values twiddles : list F) : option (list F) :=
+  fft_in_place_c (length values) values twiddles 1 1 0.
+
+Variable two_adicity : nat.
+Variable root_of_unity : nat -> F.
+
+Definition get_twiddles_c (domain_size : nat) : option (list F) :=
+  if negb (is_pow2 domain_size) then None
+  else if two_adicity <? Nat.log2 domain_size then None
+  else if Nat.log2 domain_size =? 0 then None
+  else permute_c (get_power_series O (root_of_unity (Nat.log2 domain_size)) (domain_size / 2)).
+
+Definition get_inv_twiddles_c (domain_size : nat) : option (list F) :=
+  if negb (is_pow2 domain_size) then None
+  else if two_adicity <? Nat.log2 domain_size then None
+  else if Nat.log2 domain_size =? 0 then None
+  else let root := root_of_unity (Nat.log2 domain_size) in
+       let inv_root := fpow_N O root (N.of_nat (domain_size - 1)) in
+       permute_c (get_power_series O inv_root (domain_size / 2)).
+
+Definition evaluate_poly_c (p twiddles : list F) : option (list F) :=
+  if negb (is_pow2 (length p)) then None
+  else if negb (length p =? length twiddles * 2) then None
+  else if two_adicity <? Nat.log2 (length p) then None
+  else obind (fft_in_place_top_c p twiddles) permute_c.
+
+Definition evaluate_poly_with_offset_c (p twiddles : list F) (domain_offset : F) (blowup_factor : nat)
+  : option (list F) :=
+  if negb (is_pow2 (length p)) then None
+  else if negb (is_pow2 blowup_factor) then None
+  else if negb (length p =? length twiddles * 2) then None
+  else if two_adicity <? Nat.log2 (length p * blowup_factor) then None
+  else if feqb O domain_offset (fzero O) then None
+  else
+    let domain_size := length p * blowup_factor in
+    let g := root_of_unity (Nat.log2 domain_size) in
+    obind (sequence
+             (map (fun i =>
+                     obind (permute_index_c blowup_factor i) (fun idx =>
+                     let offset := fmul O (fpow_N O g (N.of_nat idx)) domain_offset in
+                     fft_in_place_top_c (shift_by_series O p (fone O) offset) twiddles))
+                  (seq 0 blowup_factor)))
+          (fun chunks => permute_c (concat chunks)).
+
+Definition interpolate_poly_c (evaluations inv_twiddles : list F) : option (list F) :=
+  if negb (is_pow2 (length evaluations)) then None
+  else if negb (length evaluations =? length inv_twiddles * 2) then None
+  else if two_adicity <? Nat.log2 (length evaluations) then None
+  else
+    let inv_length := finv O (fofz O (Z.of_nat (length evaluations))) in
+    obind (fft_in_place_top_c evaluations inv_twiddles) (fun v => permute_c (shift_by O v inv_length)).
+
+Definition interpolate_poly_with_offset_c (evaluations inv_twiddles : list F) (domain_offset : F)
+  : option (list F) :=
+  if negb (is_pow2 (length evaluations)) then None
+  else if negb (length evaluations =? length inv_twiddles * 2) then None
+  else if two_adicity <? Nat.log2 (length evaluations) then None
+  else if feqb O domain_offset (fzero O) then None
+  else
+    obind (fft_in_place_top_c evaluations inv_twiddles) (fun v0 =>
+    obind (permute_c v0) (fun v =>
+    let domain_offset' := finv O domain_offset in
+    let offset := finv O (fofz O (Z.of_nat (length evaluations))) in
+    Some (shift_by_series O v offset domain_offset'))).
+
+Definition infer_degree_c (evaluations : list F) (domain_offset : F) : option nat :=
+  if negb (is_pow2 (length evaluations)) then None
+  else if two_adicity <? Nat.log2 (length evaluations) then None
+  else if feqb O domain_offset (fzero O) then None
+  else obind (get_inv_twiddles_c (length evaluations)) (fun inv_twiddles =>
+       obind (interpolate_poly_with_offset_c evaluations inv_twiddles domain_offset) (fun poly =>
+       Some (degree_of O poly))).
+
+End Checked.
